@@ -435,10 +435,14 @@ func main() {
 	if f.Replay != "" {
 		replay = hx.ReadLines(f.Replay)
 	}
+	var quorums []string
 	for _, l := range replay {
 		t := strings.Fields(l)
 		if len(t) >= 3 && t[0] == "node" {
 			cases = append(cases, strings.Split(t[2], ","))
+		}
+		if len(t) >= 3 && t[0] == "quorum" {
+			quorums = append(quorums, t[2])
 		}
 	}
 	if f.Replay == "" {
@@ -452,7 +456,12 @@ func main() {
 		for i := 0; i < f.N; i++ {
 			cases = append(cases, genOps(r))
 		}
+		quorums = append(quorums, quorumFixed...)
+		for i := 0; i < 4+f.N/10; i++ {
+			quorums = append(quorums, genQuorum(r))
+		}
 	}
+	qres := make([]qResult, len(quorums))
 	results := make([]result, len(cases))
 	sem := make(chan struct{}, 12)
 	var wg sync.WaitGroup
@@ -470,7 +479,34 @@ func main() {
 			results[i] = runCase(tmp, i, c)
 		}(i, c)
 	}
+	for i, q := range quorums {
+		wg.Add(1)
+		sem <- struct{}{}
+		go func(i int, q string) {
+			defer wg.Done()
+			defer func() { <-sem }()
+			defer func() {
+				if rec := recover(); rec != nil {
+					qres[i] = qResult{summary: fmt.Sprintf("harness-panic:%v", rec), stats: map[string]int{"harness-panic": 1}}
+				}
+			}()
+			qres[i] = runQuorum(tmp, i, q)
+		}(i, q)
+	}
 	wg.Wait()
+	for i, q := range quorums {
+		o.Case("quorum", q, qres[i].summary, q)
+		if qres[i].selImpl != "" {
+			// the real selectNewLeader's decision on the reported heads, judged by the model on the true heads
+			o.Case("sel", qres[i].selInput, qres[i].selImpl, q)
+		}
+		for _, v := range qres[i].viols {
+			o.Violation(v[0], v[1])
+		}
+		for k, n := range qres[i].stats {
+			o.CountN("quorum:"+k, n)
+		}
+	}
 	for i, c := range cases {
 		in := strings.Join(c, ",")
 		o.Case("node", in, results[i].line, in)
